@@ -6,7 +6,7 @@ from translators import tr_c05
 
 PID = "C05"
 CLAIM = True
-MANIFEST_TEXT = ("48 Lean 4 theorems (lean/DuneVerif/Props/C05.lean) about a message-level model of Interface::build and "
+MANIFEST_TEXT = ("49 Lean 4 theorems (lean/DuneVerif/Props/C05.lean) about a message-level model of Interface::build and "
                  "BufferedCommunicator (two passes count/add of buildInterface with the attribute tests REGENERATED from "
                  "interface.hh on every run, strip, messageInformation_ layout with start in elements and size in bytes, gather "
                  "into one buffer, per-neighbour Issend/Irecv, receive buffer written by arriving messages in any order on top "
@@ -49,7 +49,7 @@ MANIFEST_TEXT = ("48 Lean 4 theorems (lean/DuneVerif/Props/C05.lean) about a mes
                  "communication the receiver is in), async_returns_without_pending_send, async_progress / async_measure (no "
                  "reachable state with an unfinished process is stuck; every move decreases a natural number: termination "
                  "over whole histories with late processes); round four: strip_regenerated / layout_regenerated / "
-                 "direction_selectors_regenerated / datatype_selectors_regenerated -- REGENERATED from interface.hh and "
+                 "direction_selectors_regenerated / datatype_selectors_regenerated / loops_regenerated -- REGENERATED from interface.hh and "
                  "communicator.hh on every run and proved equal to the model's definitions: the erase condition of "
                  "Interface::strip, the loop body of both BufferedCommunicator::build overloads (which index list and which "
                  "container size a message, the insert condition, the four MessageInformation arguments and the two "
@@ -60,7 +60,10 @@ MANIFEST_TEXT = ("48 Lean 4 theorems (lean/DuneVerif/Props/C05.lean) about a mes
                  "plumbing of DatatypeCommunicator (messageTypes slot per send flag, containers handed to "
                  "createDataTypes/createRequests, datatype and address of MPI_Recv_init/MPI_Ssend_init per createForward, "
                  "request set filled and started: composed, each direction receives with the datatype of the model's "
-                 "receive side on the container that datatype was built on).  The model is run against the real RemoteIndices::rebuild + Interface::build/free + "
+                 "receive side on the container that datatype was built on), and the heads of the counting loops of "
+                 "MessageSizeCalculator<Data,VariableSize>, both gatherers and both scatterers (start value, condition, unit step; "
+                 "the statement of the innermost loop and the handling of the buffer position are recognised by the translator): "
+                 "they visit 0..n-1 and the nested loops compute the model's sizeCalc and enumerate the model's slots.  The model is run against the real RemoteIndices::rebuild + Interface::build/free + "
                  "BufferedCommunicator (build, forward/backward histories of up to 8 calls, free()+build and build-again life "
                  "cycles with other attribute sets, recording and stock CopyGatherScatter policies) and DatatypeCommunicator, "
                  "Selection/UncachedSelection (also second and third use: setIndexSet on a built Selection for the other index set, "
@@ -96,7 +99,7 @@ MANIFEST_NOTE = ("Trusted: Lean kernel (+propext/Classical.choice/Quot.sound), t
                  "(btl_vader_eager_limit=64, set by the harness unless DV_C05_EAGER=0); with another MPI only the tracker "
                  "rule applies.  If a refactoring takes buildInterface's attribute tests, an "
                  "enumset.hh contains body, the completion loops or the direction selectors of sendRecv / gatherers / "
-                 "scatterers / DatatypeCommunicator, the loop body of build or the condition of strip outside the translator's grammar, the translator falls back to its built-in "
+                 "scatterers / DatatypeCommunicator, the loop body of build, the counting loops of size calculator / gatherers / scatterers or the condition of strip outside the translator's grammar, the translator falls back to its built-in "
                  "transcription (counted as translator_fallbacks in the evidence) and that item is tied by the differential "
                  "run only.  Needs fixes/C05_build_twice.patch (BufferedCommunicator::build on a built communicator kept stale "
                  "message information) and fixes/C05_combine_type.patch (Combine had no member Type: nested/negated Combine did "
@@ -104,7 +107,7 @@ MANIFEST_NOTE = ("Trusted: Lean kernel (+propext/Classical.choice/Quot.sound), t
                  "CommPolicy<VariableBlockVector<..>> (the class lives in dune-istl), RemoteIndicesStateError of an unsynced "
                  "RemoteIndices (C04's isSynced), Interface::operator== (compares the argument with itself; not part of the "
                  "property).")
-TECHNIQUE = "Lean 4 proof over a message-level stateful model of Interface/BufferedCommunicator (induction over histories, refinement of an asynchronous multi-process transition system to the collective semantics, deadlock-freedom + measure) + translator for the attribute tests, enumset.hh, the completion loops and all direction selectors of sendRecv/gatherers/scatterers/DatatypeCommunicator, the loop body of build (arithmetic expressions) and the condition of strip + differential correspondence under MPI with PMPI schedule steering, late ranks, a PMPI request-discipline tracker and a definition-level oracle"
+TECHNIQUE = "Lean 4 proof over a message-level stateful model of Interface/BufferedCommunicator (induction over histories, refinement of an asynchronous multi-process transition system to the collective semantics, deadlock-freedom + measure) + translator for the attribute tests, enumset.hh, the completion loops and all direction selectors of sendRecv/gatherers/scatterers/DatatypeCommunicator, the loop body of build (arithmetic expressions), the counting loops of size calculator/gatherers/scatterers and the condition of strip + differential correspondence under MPI with PMPI schedule steering, late ranks, a PMPI request-discipline tracker and a definition-level oracle"
 TRANSLATORS = [tr_c05.translate]
 HARNESS = dict(
     sources=["mpi_c05.cc", "pmpi_c05.cc"],
@@ -129,7 +132,7 @@ RULE = ("cases: random decompositions for P ranks: <=8 (thorough <=12) global in
         "objects to the target index set (setIndexSet on a built object), frees and re-targets back; "
         "distinct = distinct op lines; non-trivial = some interface list is non-empty")
 ASSUMPTIONS = [
-    "the Lean model lean/DuneVerif/Model/C05.lean is hand-written except for the attribute tests of buildInterface, the contains functions of enumset.hh, the erase condition of strip and the loop body of BufferedCommunicator::build, which tools/translators/tr_c05.py regenerates from the source and the driver executes; the completion-loop bounds and the direction selectors (FORWARD ? first : second) of communicator.hh are regenerated and PROVED equal to the hand-written selectors of the model (the driver runs the hand-written ones) (fail-soft: outside its grammar the built-in transcription is used and counted in distribution.translator_fallbacks); its fidelity to interface.hh/communicator.hh rests on this differential run (P <= 8)",
+    "the Lean model lean/DuneVerif/Model/C05.lean is hand-written except for the attribute tests of buildInterface, the contains functions of enumset.hh, the erase condition of strip and the loop body of BufferedCommunicator::build, which tools/translators/tr_c05.py regenerates from the source and the driver executes; the completion-loop bounds, the direction selectors (FORWARD ? first : second) and the loop heads of size calculator / gatherers / scatterers of communicator.hh are regenerated and PROVED equal to the hand-written selectors of the model (the driver runs the hand-written ones) (fail-soft: outside its grammar the built-in transcription is used and counted in distribution.translator_fallbacks); its fidelity to interface.hh/communicator.hh rests on this differential run (P <= 8)",
     "remote index lists are defined as the specification proved in C04 (rebuild_spec); the harness runs the real RemoteIndices::rebuild",
     "MPI is trusted: reliable, pairwise FIFO, non-overtaking; a posted MPI_Issend and the matching posted MPI_Irecv of the same size complete; a send's payload is read from its buffer at one moment between posting and completion; that consecutive communications on one communicator do not mix is PROVED from the completion loops of sendRecv (async_refines_history), not assumed",
     "a sendRecv that returns with a send pending is reported by MPI's buffer rule (harness/pmpi_c05.cc: buffer modified / received into / released before completion was observed; request never completed), which does not depend on timing; wrong delivered values are additionally reported when late ranks + rendezvous transport (Open MPI MCA btl_vader_eager_limit=64 set by the harness) expose them",
